@@ -74,7 +74,15 @@ def check_views(case, ctx):
             P = [list(p) for p in s["P"]]
             kinds.add("P")
         elif op == "set_W":
-            obj.weights = list(s["W"])
+            if s["W"][0] in (0.25, 0.5, 1.5):
+                # the read / edit in place / write back idiom: the getter hands out a list, the user changes it and assigns it
+                w = obj.weights
+                for j, x in enumerate(s["W"]):
+                    w[j] = x
+                obj.weights = w
+                ctx.label("weights-edited-in-place")
+            else:
+                obj.weights = list(s["W"])
             W = list(s["W"])
             kinds.add("W")
         elif op == "set_Pw":
